@@ -121,4 +121,136 @@ theorem dominant_of_quadform (w : Fin n → ℝ) (c : Fin n → Fin d → ℝ) (
     nlinarith [mul_pos (sub_pos.mpr hta) (sub_pos.mpr hlt)]
   exact eq_or_neg_of_dot_sq p v hp hv this
 
+/-! ### quaternion specifics -/
+
+def Q.dot (a b : Q ℝ) : ℝ := a.w * b.w + a.x * b.x + a.y * b.y + a.z * b.z
+def Q.ofFn (u : Fin 4 → ℝ) : Q ℝ := ⟨u 0, u 1, u 2, u 3⟩
+
+theorem get_dot (a : Q ℝ) (u : Fin 4 → ℝ) : a.get ⬝ᵥ u = a.dot (Q.ofFn u) := by
+  simp [dotProduct, Fin.sum_univ_four, Q.get, Q.dot, Q.ofFn]
+
+theorem get_dot_get (a b : Q ℝ) : a.get ⬝ᵥ b.get = a.dot b := by
+  simp [dotProduct, Fin.sum_univ_four, Q.get, Q.dot]
+
+theorem dot_self_fn (u : Fin 4 → ℝ) : u ⬝ᵥ u = (Q.ofFn u).normSq := by
+  simp [dotProduct, Fin.sum_univ_four, Q.normSq, Q.ofFn]; ring
+
+theorem get_dot_self (a : Q ℝ) : a.get ⬝ᵥ a.get = a.normSq := by
+  rw [get_dot_get]; simp [Q.dot, Q.normSq]; ring
+
+theorem ofFn_get (a : Q ℝ) : Q.ofFn a.get = a := by
+  ext <;> simp [Q.ofFn, Q.get]
+
+theorem get_ofFn (u : Fin 4 → ℝ) : (Q.ofFn u).get = u := by
+  funext i; fin_cases i <;> simp [Q.ofFn, Q.get]
+
+theorem get_neg (a : Q ℝ) : a.neg.get = -a.get := by
+  funext i; fin_cases i <;> simp [Q.neg, Q.get]
+
+/-- right multiplication is adjoint to right multiplication by the conjugate -/
+theorem dot_mul_right (a b c : Q ℝ) : (a.mul c).dot b = a.dot (b.mul c.conj) := by
+  simp only [Q.dot, Q.mul, Q.conj]; ring
+
+theorem mul_conj_w (b c : Q ℝ) : (b.mul c.conj).w = c.dot b := by
+  simp only [Q.dot, Q.mul, Q.conj]; ring
+
+/-- pairing a sum with an involution of the index set -/
+theorem sum_pair {n : Nat} (σ : Fin n → Fin n) (hσ : Function.Involutive σ) (f : Fin n → ℝ) :
+    ∑ i, f i = (1 / 2) * ∑ i, (f i + f (σ i)) := by
+  have h : ∑ i, f (σ i) = ∑ i, f i := Equiv.sum_comp hσ.toPerm f
+  rw [Finset.sum_add_distrib, h]; ring
+
+/-- `(e ⊗ c) + (e* ⊗ c) = 2 e_w c`, component-wise -/
+theorem mul_add_conj_mul (e c : Q ℝ) (a : Fin 4) :
+    (e.mul c).get a + (e.conj.mul c).get a = 2 * e.w * c.get a := by
+  fin_cases a <;> simp [Q.mul, Q.conj, Q.get] <;> ring
+
+/-- Lagrange / Cauchy–Schwarz in ℝ³ -/
+theorem cs3 (a b c x y z : ℝ) : (a * x + b * y + c * z) ^ 2 ≤ (a ^ 2 + b ^ 2 + c ^ 2) * (x ^ 2 + y ^ 2 + z ^ 2) := by
+  nlinarith [sq_nonneg (a * y - b * x), sq_nonneg (a * z - c * x), sq_nonneg (b * z - c * y)]
+
+/-- Inputs `q_i = e_i ⊗ c` placed symmetrically around a unit centre `c`: the offsets `e_i` are unit
+    quaternions closed under conjugation (`e (σ i) = (e i)*` for an involution `σ`, equal weights on a
+    pair), each less than a quarter turn from the identity (`e_w² > 1/2`, i.e. half-angle < π/4),
+    weights non-negative with positive sum.  Then `c` satisfies the eigenvector contract for
+    `Σ w_i q_i q_iᵀ` and every vector satisfying it is `±c`. -/
+theorem symmetric_centre_dominant {n : Nat} (w : Fin n → ℝ) (e : Fin n → Q ℝ) (c : Q ℝ)
+    (σ : Fin n → Fin n) (hσ : Function.Involutive σ)
+    (hc : c.normSq = 1) (he : ∀ i, (e i).normSq = 1)
+    (hconj : ∀ i, e (σ i) = (e i).conj) (hwσ : ∀ i, w (σ i) = w i)
+    (hw : ∀ i, 0 ≤ w i) (hsum : 0 < ∑ i, w i) (hquarter : ∀ i, 1 / 2 < (e i).w ^ 2) :
+    IsDominantEigvec (outerSum w (fun i => ((e i).mul c).get)) c.get ∧
+    ∀ v, IsDominantEigvec (outerSum w (fun i => ((e i).mul c).get)) v → v = c.get ∨ v = -c.get := by
+  set a : ℝ := ∑ i, w i * (e i).w ^ 2 with ha
+  set t : ℝ := ∑ i, w i * (1 - (e i).w ^ 2) with ht
+  have hdotc : ∀ i, ((e i).mul c).get ⬝ᵥ c.get = (e i).w := by
+    intro i
+    rw [get_dot_get, dot_mul_right, mul_conj_self, hc]
+    simp [Q.dot]
+  apply dominant_of_quadform w _ c.get a t
+  · rw [get_dot_self, hc]
+  · -- `M c = a c`
+    funext k
+    rw [outerSum_mulVec]
+    simp only [hdotc, Pi.smul_apply, smul_eq_mul]
+    rw [sum_pair σ hσ]
+    have : ∀ i, w i * (e i).w * ((e i).mul c).get k + w (σ i) * (e (σ i)).w * ((e (σ i)).mul c).get k
+        = 2 * (w i * (e i).w ^ 2) * c.get k := by
+      intro i
+      rw [hwσ, hconj]
+      have hw' : (e i).conj.w = (e i).w := rfl
+      rw [hw']
+      have := mul_add_conj_mul (e i) c k
+      calc w i * (e i).w * ((e i).mul c).get k + w i * (e i).w * ((e i).conj.mul c).get k
+          = w i * (e i).w * (((e i).mul c).get k + ((e i).conj.mul c).get k) := by ring
+        _ = 2 * (w i * (e i).w ^ 2) * c.get k := by rw [this]; ring
+    simp_rw [this]
+    rw [← Finset.sum_mul, ← Finset.mul_sum]
+    ring
+  · -- `t < a`
+    have hpos : 0 < ∑ i, w i * (2 * (e i).w ^ 2 - 1) := by
+      have hex : ∃ i ∈ Finset.univ, 0 < w i := by
+        by_contra hno
+        push Not at hno
+        have : ∑ i, w i ≤ 0 := Finset.sum_nonpos (fun i hi => hno i hi)
+        linarith
+      obtain ⟨i0, _, hi0⟩ := hex
+      refine Finset.sum_pos' (fun i _ => mul_nonneg (hw i) (by linarith [hquarter i])) ⟨i0, Finset.mem_univ _, ?_⟩
+      exact mul_pos hi0 (by linarith [hquarter i0])
+    have : a - t = ∑ i, w i * (2 * (e i).w ^ 2 - 1) := by
+      rw [ha, ht, ← Finset.sum_sub_distrib]
+      exact Finset.sum_congr rfl (fun i _ => by ring)
+    linarith
+  · -- the quadratic form
+    intro u
+    set y : Q ℝ := (Q.ofFn u).mul c.conj with hy
+    have hyw : y.w = c.get ⬝ᵥ u := by rw [hy, mul_conj_w, get_dot]
+    have hyn : y.normSq = u ⬝ᵥ u := by rw [hy, normSq_mul, normSq_conj, hc, mul_one, dot_self_fn]
+    have hdot : ∀ i, ((e i).mul c).get ⬝ᵥ u = (e i).dot y := by
+      intro i; rw [get_dot, dot_mul_right]
+    simp_rw [hdot]
+    rw [sum_pair σ hσ]
+    have hterm : ∀ i, w i * (e i).dot y ^ 2 + w (σ i) * (e (σ i)).dot y ^ 2
+        ≤ 2 * (w i * (e i).w ^ 2 * y.w ^ 2 + w i * (1 - (e i).w ^ 2) * (y.normSq - y.w ^ 2)) := by
+      intro i
+      rw [hwσ, hconj]
+      have hcs := cs3 (e i).x (e i).y (e i).z y.x y.y y.z
+      have hunit : (e i).x ^ 2 + (e i).y ^ 2 + (e i).z ^ 2 = 1 - (e i).w ^ 2 := by
+        have := he i; unfold Q.normSq at this; linarith
+      have hyv : y.x ^ 2 + y.y ^ 2 + y.z ^ 2 = y.normSq - y.w ^ 2 := by unfold Q.normSq; ring
+      rw [hunit, hyv] at hcs
+      have e1 : (e i).dot y ^ 2 + (e i).conj.dot y ^ 2
+          = 2 * ((e i).w ^ 2 * y.w ^ 2) + 2 * ((e i).x * y.x + (e i).y * y.y + (e i).z * y.z) ^ 2 := by
+        simp only [Q.dot, Q.conj]; ring
+      have : w i * (e i).dot y ^ 2 + w i * (e i).conj.dot y ^ 2
+          = w i * ((e i).dot y ^ 2 + (e i).conj.dot y ^ 2) := by ring
+      rw [this, e1]
+      nlinarith [mul_le_mul_of_nonneg_left hcs (hw i)]
+    calc (1 / 2) * ∑ i, (w i * (e i).dot y ^ 2 + w (σ i) * (e (σ i)).dot y ^ 2)
+        ≤ (1 / 2) * ∑ i, 2 * (w i * (e i).w ^ 2 * y.w ^ 2 + w i * (1 - (e i).w ^ 2) * (y.normSq - y.w ^ 2)) := by
+          apply mul_le_mul_of_nonneg_left (Finset.sum_le_sum (fun i _ => hterm i)) (by norm_num)
+      _ = a * (c.get ⬝ᵥ u) ^ 2 + t * (u ⬝ᵥ u - (c.get ⬝ᵥ u) ^ 2) := by
+          rw [ha, ht, ← hyw, ← hyn, ← Finset.mul_sum, Finset.sum_add_distrib, Finset.sum_mul, Finset.sum_mul]
+          ring
+
 end BFL.Quat
